@@ -27,7 +27,8 @@ RULE = ('Exhaustive entry "enum": one evaluation = one chi^2 vector (length 0..5
         'FitInfo.sort() and checked against every selector A / N(0..7) / C,D(8 thresholds) / E,F(8 thresholds x n_data in '
         '{1,2,3,5}); combinations whose threshold equals an attained statistic are dropped and counted. Entry "long": '
         'Hypothesis vectors of length 0..200 with ties/inf/NaN, thresholds strictly between attained values. Entry '
-        '"history": rule-based state machine of keep() calls on one result vs a Python list model, plus keep-twice and '
+        '"history": rule-based state machine of keep() calls on one result (interleaved with in-place edits of the source\'s '
+        'flags) vs a Python list model, plus keep-twice and '
         'loose-then-tight laws. Non-trivial = length >= 2 and some selector keeps a proper non-empty subset, or the vector '
         'contains a tie / inf / NaN; for histories: >= 2 keep() calls of which one removed rows.')
 ASSUMPTIONS = [
@@ -303,10 +304,35 @@ class KeepMachine(TracedMachine()):
     def _setup(self, chi2, n_data, with_fluxes):
         self.n_data = n_data
         self.info = make_info(chi2, n_data, with_fluxes=with_fluxes)
+        if int(self.info.source.n_data) != n_data:
+            fail('n_data is %r for flags %r' % (self.info.source.n_data, list(self.info.source.valid)), 'c05:n_data')
         self.model = rows_of(self.info, 'ranked result')
+        self.flags = [int(v) for v in self.info.source.valid]
 
     def _usable(self, sel):
+        if sel[0] in 'EF' and self.n_data == 0:
+            return False  # chi^2 per data point is undefined without data points
         return not reference_keep(self.model, sel, self.n_data)[1]
+
+    @precondition(lambda self: self.info is not None and not self._dead)
+    @rule(j=st.integers(0, 8), value=st.sampled_from([0, 1, 2, 3, 4, 9]))
+    def edit_flag(self, j, value):
+        """the user re-flags a band of the source IN PLACE between two selections (drops a point, turns it into a limit,
+        promotes a plot-only point): n_data is whatever the flags say at the time of the selection"""
+        self.log('edit_flag', j=j, value=value)
+        self.guard(self._edit_flag, j, value)
+
+    def _edit_flag(self, j, value):
+        j = j % len(self.flags)
+        with must_succeed('editing source.valid in place'):
+            self.info.source.valid[j] = value
+        self.flags[j] = value
+        self.n_data = sum(1 for f in self.flags if f in (1, 4))
+        self.n_edits = getattr(self, 'n_edits', 0) + 1
+        got = int(self.info.source.n_data)
+        if got != self.n_data:
+            fail('after re-flagging band %d as %d the flags are %r but n_data is %d (it counts flags 1 and 4 only: %d)' % (
+                j, value, self.flags, got, self.n_data), 'c05:n_data_stale')
 
     @precondition(lambda self: self.info is not None and not self._dead)
     @rule(sel=selector_st)
@@ -352,6 +378,8 @@ class KeepMachine(TracedMachine()):
                 sel, [g[0] for g in twice], [g[0] for g in once]), 'c05:not_idempotent')
 
     def _usable_on(self, rows, sel):
+        if sel[0] in 'EF' and self.n_data == 0:
+            return False
         return not reference_keep(rows, sel, self.n_data)[1]
 
     @precondition(lambda self: self.info is not None and not self._dead)
@@ -383,6 +411,8 @@ class KeepMachine(TracedMachine()):
 
     def finish(self):
         labels = {'history_keeps=%d' % min(self.n_keeps, 4)}
+        if getattr(self, 'n_edits', 0):
+            labels.add('flags_edited_in_place')
         return labels, self.n_keeps >= 2 and self.n_removed_steps >= 1
 
 
